@@ -225,8 +225,28 @@ func genThresholds(c *hmain.Ctx, r *hx.Rng, add func(stream string, which int, c
 			phaseS([]hx.Sx{opAppend(1000, 0, lines(b, s0, r.Range(3, 5), 30, 0)...), opLink(0, 1000), opAppend(1, 0, lines(b, s0, 2, 30, 0)...)}, mode, arg, 30000),
 			phaseS([]hx.Sx{opAppend(1, 0, lines(b, s0, 2, 30, 0)...)}, 0, 0, 150)), true)
 	}
-	if knownListed("C03-k8s-meta-short-name") {
-		add("k8s-meta-short-name", 0, witnessK8sMetaShortName(), true)
+	// REPAIRED (7ddecef, known_findings C03-k8s-meta-short-name = fixed): a watched file whose base name has fewer than 4
+	// bytes used to panic the worker (meta.go sliced before it checked the length). Now NewK8sMetaInformation returns
+	// "invalid filename: too short after removing extension" for it like for any other name that is not in the kubelet
+	// format; worker.work logs "cannot parse meta info" and goes on with the zero metaInformation: the templates render
+	// "<nil>" (k8sMetadata is nil, GetData yields nil values) and the lines are delivered like everybody else's. Always
+	// run, must Agree: the directed witness + short names next to ordinary ones and behind a symlink, a kill in between.
+	add("k8s-meta-short-name", 0, witnessK8sMetaShortName(), true)
+	for i := 0; i < 2*c.Scale; i++ {
+		b := &caseB{}
+		o := baseCfg()
+		o.k8sMeta = 1
+		s0 := hx.Pick(r, streams)
+		short1, short2 := 2000+r.Intn(26), 2026+r.Intn(26*26) // one letter; two letters
+		down := []hx.Sx{opAppend(short1, 0, lines(b, s0, r.Range(2, 4), 30, 0)...), opAppend(0, 0, lines(b, s0, 2, 30, 0)...),
+			opAppend(1000, r.Range(0, 10), lines(b, s0, r.Range(2, 3), 30, 0)...), opLink(short2, 1000)} // a short-named symlink
+		mode, arg := killMid(5)
+		down2 := []hx.Sx{opAppend(short1, 0, lines(b, s0, r.Range(1, 2), 30, 0)...), opAppend(1000, 0, lines(b, s0, 1, 30, 0)...)}
+		c.W.Count("k8s-meta-short-name: base names of 1 and 2 bytes (file and symlink), kill, restart")
+		add("k8s-meta-short-name", 0, mkCase(o.sx(),
+			phaseS(down, mode, arg, 30000),
+			phaseS(down2, 0, 0, 30000, live(1, opAppend(short1, 0, lines(b, s0, 1, 30, 0)...))),
+			phaseS(nil, 0, 0, 150)), true)
 	}
 
 	// ---- item 28, modes: should_watch_file_changes, max_event_size (skip and cut_off) and remove_after combined with kill
@@ -403,7 +423,8 @@ func witnessLiveRotateStaleJob() hx.Sx {
 }
 
 // the k8s input's built-in meta templates + a file whose base name is shorter than 4 bytes: meta.NewK8sMetaInformation
-// slices [lastSlash+1 : len-4] before it checks the length — the worker goroutine panics, file.d dies (again after a restart)
+// used to slice [lastSlash+1 : len-4] before it checked the length — the worker goroutine panicked, file.d died (again
+// after a restart). Repaired by 7ddecef; the case must Agree now.
 func witnessK8sMetaShortName() hx.Sx {
 	b := &caseB{}
 	o := cfgOpt{persist: 1, procs: 1, asyncMs: 10, maintMs: 25, k8sMeta: 1}
